@@ -60,7 +60,7 @@ fn range_strategy(p: Profile) -> BoxedStrategy<Option<Range>> {
         }
         if mode == 1 {
             lb = 0;
-            ub = ub.abs().max(1);
+            ub = ub.abs().max(1).min(i64::MAX as i128); // (|i64::MIN| is outside the documented 64-bit domain)
         }
         Some(Range { lb: Some(Num::lit(lb)), ub: Some(Num::lit(ub)), ext })
     });
@@ -141,6 +141,8 @@ fn leaf_strategy(p: Profile) -> BoxedStrategy<Type> {
         Profile::Roundtrip => prop_oneof![
             4 => Just(vec![]),
             1 => Just(vec![("bitA".to_string(), 0u64), ("bitB".to_string(), 3)]),
+            // (declared out of ascending order: the declared order is what must be kept)
+            1 => Just(vec![("execute".to_string(), 2u64), ("write".to_string(), 1), ("read".to_string(), 0), ("sticky".to_string(), 9)]),
             1 => Just(vec![("bit-a".to_string(), 0u64), ("bitB".to_string(), 1), ("c".to_string(), 2), ("dd".to_string(), 7), ("e5".to_string(), 300), ("last-one".to_string(), 65536)]),
         ].boxed(),
     };
@@ -149,6 +151,7 @@ fn leaf_strategy(p: Profile) -> BoxedStrategy<Type> {
         Profile::Roundtrip => prop_oneof![
             4 => Just(vec![]),
             1 => Just(vec![("numA".to_string(), 1i64), ("numB".to_string(), 2)]),
+            1 => Just(vec![("high".to_string(), 20i64), ("low".to_string(), -3), ("mid".to_string(), 7)]),
             1 => Just(vec![("zero".to_string(), 0i64), ("minus-one".to_string(), -1), ("big".to_string(), 4294967296), ("n4".to_string(), 255), ("n5".to_string(), 256), ("lowest".to_string(), i64::MIN), ("highest".to_string(), i64::MAX)]),
         ].boxed(),
     };
